@@ -274,10 +274,11 @@ def insert_file(state, inserted_file_path: str) -> bytes:
             "io-error",
             (state["insn"].ctx_start, state["insn"].ctx_end, f"The file at path '{include_path}' is a directory.")
         )
-    except IOError:
+    except (IOError, ValueError):
+        # ValueError: the path is not valid at all, e.g. contains a NUL character
         reports.error(
             "io-error",
-            (state["insn"].ctx_start, state["insn"].ctx_end, f"Could not read file at path '{include_path}'.")
+            (state["insn"].ctx_start, state["insn"].ctx_end, f"Could not read file at path {include_path!r}.")
         )
     return b""
 
@@ -406,6 +407,13 @@ def include(state, included_file_path: str):
         reports.error(
             "io-error",
             (state["insn"].ctx_start, state["insn"].ctx_end, f"Source file '{include_path}' is not in UTF-8:\n{ex}")
+        )
+        return b""
+    except ValueError:
+        # The path is not valid at all, e.g. contains a NUL character
+        reports.error(
+            "io-error",
+            (state["insn"].ctx_start, state["insn"].ctx_end, f"Could not read file at path {include_path!r}.")
         )
         return b""
 
